@@ -56,8 +56,11 @@ PDFSMutOk(r, h, run) ==
                              /\ (r.obs.readok => x.fits)                  \* never "silently accepted data whose size contradicts the header"
                         /\ (run.verdict = "accepted" /\ Relevant(run.st.vars) = Relevant(h.base.st.vars)) => (r.obs.verdict = "accepted" /\ r.obs.readok)
       [] OTHER -> r.obs.verdict # "abort"
+Generic(r) == r.reader \in {"img_generic", "pd_generic"}
+MutText(r, h) == LET PL == MutLines(r, h) IN [i \in 1..Len(PL) |-> PL[i].t]
 MutOk(r, h) == /\ h.hid = r.hid
-               /\ \E run \in {MutRun(r, h)} : IF h.kind = "image" THEN ImageMutOk(r, h, run) ELSE PDFSMutOk(r, h, run)
+               /\ IF Generic(r) /\ ~SignatureOk(MutText(r, h)) THEN Rejected(r.obs)      \* not recognised as Interfile
+                  ELSE \E run \in {MutRun(r, h)} : IF h.kind = "image" THEN ImageMutOk(r, h, run) ELSE PDFSMutOk(r, h, run)
 
 (* ---- part (c): print - parse - print ------------------------------------ *)
 \* "Re-parsing the parameter text that an object prints for itself reproduces an object that prints
